@@ -4,11 +4,11 @@ import json, os, collections
 READY = True
 
 META = {
-    "technique": "Lean 4 proof (Value::cmp refines compare on an explicit linearly ordered key; ==/Hash consistency; algebra of sort/unique/groupby/batch/slice/reverse/min/max for every list) + differential correspondence on all ordered pairs of a boundary value zoo under both map implementations",
+    "technique": "Lean 4 proof (Value::cmp = compare on an explicit linearly ordered key for all values incl. floats at bit level; == <=> Equal and == => same hash items outside the bool-vs-number region; algebra of sort/unique/groupby/batch/slice/reverse/min/max for every list and every total preorder) + differential correspondence of the model on all ordered pairs of a boundary value zoo under both map implementations",
     "category": "proof",
-    "text": "Kernel-checked theorems about a Lean transcription of impl Ord/PartialEq/Hash for Value (floats as bit patterns, numbers compared exactly) and of the collection filters. The transcription is tied to /repo by sending every ordered pair of a ~290-value boundary zoo (all integer widths at their boundaries, floats incl. +-0/inf/NaN/2^53/2^63/2^64/2^127/2^128 neighbourhoods, strings in all three representations, bytes, lists, tuples, sized/unsized iterables, maps in both insertion orders, plain objects, nestings) through Value::cmp, == and Hash and through the Lean model, with BTreeMap and with IndexMap (preserve_order); the laws themselves (total preorder via a rank function, == <=> Equal, == => same hash, template operators / in / dict lookup consistent) are also evaluated directly on the implementation's answers, and the filter laws on the outputs for all lists of length <= 5 over a 7-value alphabet with every keyword option plus long random lists.",
+    "text": "Kernel-checked theorems about a Lean transcription of impl Ord/PartialEq/Hash for Value: cmp_refines_key (cmpV a b = lexicographic compare of explicit token keys, hence reflexive/antisymmetric/transitive/total/congruent) for every value whose numbers are in range - integers of all four widths, floats as 64-bit patterns with int/float comparisons proved exact through the concrete round-to-nearest-even `as f64` and saturating `as int` casts, strings, bytes, sequences, tuples, iterables, maps, plain objects, nested arbitrarily; C07_partial (== <=> cmp = Equal, == => equal hash items) for NaN-free values with BTreeMap-ordered maps outside the region `a bool faces a number`, where C07_counterexample shows the full statement false on the code (true == 1, cmp = Less, hashes differ: a known finding pinned by the existing tests); filter theorems over an arbitrary item type and total preorder. The transcription is tied to /repo by sending every ordered pair of a ~290-value boundary zoo through Value::cmp, == and Hash and through the Lean model (BTreeMap and IndexMap builds), the laws themselves are evaluated directly on the implementation's answers (rank criterion for the total preorder, == vs Equal, == vs hash, template operators / in / dict lookup), and the filter laws on the outputs for all lists of length <= 5 over a 7-value alphabet with every keyword option, long random lists, and batch/slice run lengths against the model.",
     "design_ref": "DESIGN.md §3 C07",
-    "level_note": "Trusted: Lean kernel; hand transcription of value/mod.rs (Ord, PartialEq, Hash, cmp_f64*, cmp_uncoercible_numbers), ops.rs (coerce, as_f64), argtypes.rs (integer TryFrom) into MJ/Model/{CmpF64,Value,Cmp}.lean and of filters.rs (batch, slice, sort, unique, groupby, min, max, reverse) into MJ/Model/Coll.lean, validated by the correspondence on the zoo (exhaustive over zoo pairs, not over all values); Rust's stable sort_by is assumed to be the unique stable sort (List.mergeSort), BTreeMap/BTreeSet lookups to find an element iff one compares Equal; object identity short-cuts, custom_cmp and Invalid values are not modelled.",
+    "level_note": "Trusted: Lean kernel; hand transcription of value/mod.rs (Ord, PartialEq, Hash, cmp_f64*, cmp_uncoercible_numbers), ops.rs (coerce, as_f64), argtypes.rs (integer TryFrom) into MJ/Model/{CmpF64,Value,Cmp}.lean and of filters.rs (batch, slice, sort, unique, groupby, min, max, reverse) into MJ/Model/Coll.lean, validated by the correspondence on the zoo (exhaustive over zoo pairs, not over all values); IEEE-754 semantics of the f64 primitives; Rust's stable sort_by is taken to be the unique stable sort (List.mergeSort), BTreeMap/BTreeSet lookups to find an element iff one compares Equal; object identity short-cuts, custom_cmp and Invalid values are not modelled; under preserve_order (IndexMap) the == / hash theorems do not apply (insertion-order findings).",
 }
 
 KINDS = {"u": "Undefined", "n": "None", "t": "Bool", "f": "Bool", "U64": "Number", "I64": "Number", "U128": "Number",
